@@ -73,3 +73,17 @@ CHECKS["C03"] = {
         {"pkg": "root", "run": "TestVF_C03_Random", "rapid": {"quick": 150, "thorough": 2000}, "shards": {"quick": 6, "thorough": 16}},
     ],
 }
+
+CHECKS["C02"] = {
+    "level": "fault_enumeration",
+    "technique": "metamorphic property-based testing: rapid-generated proof lists (1..4 builders, disclosure/issuance, non-revocation and range parts, 1..3 keys) x complete enumeration of session-tuple changes (bit flips of context/nonce, flag, all permutations, sub-lists, duplications, splices, key substitutions, empty lists); oracle = original accepted, every changed tuple rejected",
+    "level_text": "For each generated honest list, every change of the enumerated fault set is applied one at a time and presented (decoded freshly from JSON) to ProofList.Verify / ProofD.Verify / ProofU.Verify; acceptance of any changed tuple is a violation, rejection of the original is a failed control.",
+    "level_note": "Changes are guaranteed to differ from the original tuple (identity permutations, equal values and substitutions of unused key elements are excluded). Honest non-revocation proofs falling into the known C11 ambiguity class are excluded and counted.",
+    "rule": ("case = one (proof list, changed tuple) presentation. Non-trivial: every presentation (the original and each changed tuple in which all individual proofs are well-formed); "
+             "distinct by (list shape incl. keys, session flag, change class, change parameter)."),
+    "assumptions": ["encoding/json round trip of ProofList is meaning-preserving (checked by C18)"],
+    "units": [
+        {"pkg": "root", "run": "TestVF_C02", "rapid": {"quick": 35, "thorough": 400},
+         "shards": {"quick": 8, "thorough": 16}, "timeout": {"quick": 500, "thorough": 3400}},
+    ],
+}
